@@ -90,17 +90,21 @@ class CacheData:
         file_hash = hashlib.blake2b(bytes(text, "utf-8")).hexdigest()
 
         try:
-            page, diagnostics = pickle.loads(self.pages[(path.as_posix(), file_hash)])
+            page_data = self.pages[(path.as_posix(), file_hash)]
         except KeyError as err:
             self.stats.misses += 1
             raise CacheMiss() from err
+
+        try:
+            page, diagnostics = pickle.loads(page_data)
+            if not isinstance(page, Page) or not all(
+                isinstance(x, Diagnostic) for x in diagnostics
+            ):
+                raise TypeError("Invalid cache entry")
         except Exception as err:
             logger.info("Error loading page from cache: %s", err)
             self.stats.errors += 1
             raise CacheMiss()
-
-        assert isinstance(page, Page)
-        assert all(isinstance(x, Diagnostic) for x in diagnostics)
 
         # The text is not all there is to know about a source file that was read with diagnostics
         # (it could not be decoded, it refers to undeclared constants...): such a page is only
